@@ -16,7 +16,7 @@ TRUSTED = ['Coq 8.16.1 kernel; vm_compute in case shards, the Example and the fi
 ASSUMPTIONS = ['user callables are importable (module-level functions and instances of module-level classes): the premise of C19',
                'the standard pickle module copies an object without hooks attribute by attribute (not modelled further)',
                'call_ok of C04: acyclic graph, defined semantics, no numeric leaves in cache keys (F3)']
-LISTED = {'source', 'transform', 'apply', 'chain', 'merge', 'filter', 'keep', 'drop', 'groupby', 'checkids', 'ram', 'disk', 'columns'}
+LISTED = {'source', 'transform', 'apply', 'chain', 'merge', 'filter', 'keep', 'drop', 'groupby', 'checkids', 'ram', 'disk', 'columns', 'silent', 'mixin'}
 KIND = {'global': 'Global', 'instance': 'User', 'local': 'Lambda'}
 
 
